@@ -155,6 +155,9 @@ func cmdCheck(args []string) {
 		if !hasProp(ct.Properties, prop) {
 			continue
 		}
+		if ct.IfaceMethod {
+			continue
+		}
 		if ct.Fn == nil {
 			driftHere = append(driftHere, ct.Qual)
 			continue
